@@ -1,0 +1,19 @@
+//go:build verif
+
+package font
+
+// Verification hooks for property C10, second part (composite glyphs, phantom points).
+// Add-only.
+
+// VerifGlyfAllPoints returns what getPointsForGlyph(gid, 0, ...) collects: the contour points of the
+// glyph (components resolved and transformed) followed by the four phantom points
+// (left, right, top, bottom).  nil when the call appends nothing (gid out of range).
+func (f *Face) VerifGlyfAllPoints(gid GID) []VerifContourPoint {
+	var all []contourPoint
+	f.getPointsForGlyph(gID(gid), 0, &all)
+	out := make([]VerifContourPoint, len(all))
+	for i, p := range all {
+		out[i] = VerifContourPoint{X: p.X, Y: p.Y, On: p.isOnCurve, IsEnd: p.isEndPoint}
+	}
+	return out
+}
